@@ -10,10 +10,12 @@ open Vlsp Vlsp.Text Vlsp.Server
 inductive Ev
   | edit (uri : Text) (pkgs : List PkgInfo)                 -- didOpen / didChange (packages of the new text)
   | reply (reg name : Text) (o : Fetch.Outcome)             -- a registry answer arrives
+  | close (uri : Text)                                       -- didClose
 
 def step (s : Srv) : Ev → Srv × List Msg
   | .edit uri pkgs => Server.edit s uri pkgs
   | .reply reg name o => Server.reply s reg name o
+  | .close uri => (Server.close s uri, [])
 
 /-- run a schedule, collecting everything published (oldest first) -/
 def run (s : Srv) : List Ev → Srv × List Msg
@@ -201,11 +203,12 @@ theorem c13_republication_is_current (s : Srv) (hu : UniqueDocs s) (reg name : T
 
 /-- full C13 (kept visible as first written; PROVED in Props/C13Full.lean as `c13_full_holds`, for schedules whose registry
     replies carry dist-tag maps with distinct names — what the code can receive, the map is a `HashMap`): for every schedule that ends quiescent, every document's last
-    publication is the diagnosis of its latest text against the final cache -/
+    publication is the diagnosis of its latest text against the final cache (schedules of edits, replies and didClose; the
+    documents in question are those open at the end) -/
 def c13_full : Prop :=
   ∀ (evs : List Ev) (uri : Text) (reg : String), Detect.detect uri = some reg →
     let r := run {} evs
-    Quiescent r.1 → (∃ pk, Ev.edit uri pk ∈ evs) → lastPub uri r.2 = wanted r.1 uri reg
+    Quiescent r.1 → (∃ d ∈ r.1.docs, d.1 = uri) → lastPub uri r.2 = wanted r.1 uri reg
 
 def lodash (spec : String) : PkgInfo := ⟨"lodash".toList, spec.toList, none, 30, 30 + spec.length, 2, 15, none⟩
 def uriA : Text := "file:///w/a/package.json".toList
